@@ -138,7 +138,7 @@ func newConn(h *Handler, s *xmpp.Session, iq openIQ, recv bool, maxBufSize int) 
 
 	return &Conn{
 		readBuf:        bytes.NewBuffer(make([]byte, 0, blockSize)),
-		readReady:      make(chan struct{}),
+		readReady:      make(chan struct{}, 1),
 		s:              s,
 		writeBuf:       bufio.NewWriterSize(b64Writer, int(blockSize)),
 		closeFlushFunc: b64Writer.Close,
@@ -172,12 +172,19 @@ func (c *Conn) Read(b []byte) (n int, err error) {
 	// If the buffer is empty and we would get io.EOF, nil this does not
 	// necessarily mean that the connection is closed.
 	// In this case wait for a signal that there is more data to read.
-	// When the connection is closed this same signal is sent and our final read
-	// from the empty buffer will result in 0, io.EOF as expected.
-	if c.readBuf.Len() == 0 {
+	// When the connection is closed the signal channel is closed and our final
+	// read from the empty buffer will result in 0, io.EOF as expected.
+	// The signal is buffered (see newConn) so that one sent between the check
+	// and the wait is not lost; a signal left over from data that has already
+	// been read, or one for a packet without data, just results in another
+	// round.
+	for c.readBuf.Len() == 0 {
 		c.readLock.Unlock()
-		<-c.readReady
+		_, ok := <-c.readReady
 		c.readLock.Lock()
+		if !ok {
+			break
+		}
 	}
 
 	return c.readBuf.Read(b)
